@@ -235,6 +235,21 @@ func runC09(c *Ctx, r *Rec) {
 		checkSortDriver(c, r, info, driverFD, c.funcOf(mergeFD))
 	}
 
+	// ---- unsigned arithmetic on sizes (the sorter's file: its methods and their helpers)
+	{
+		var fds []*ast.FuncDecl
+		sorterFile := ""
+		for _, fd := range ms {
+			sorterFile = c.Fset.Position(fd.Pos()).Filename
+		}
+		for _, fd := range c.allFuncDecls("agent") {
+			if c.Fset.Position(fd.Pos()).Filename == sorterFile {
+				fds = append(fds, fd)
+			}
+		}
+		checkUnsignedSizeMinus(c, r, "D5-unsigned-size-minus", fds)
+		checkIndexGuardAdmitsLength(c, r, "D5-guard-excludes-the-length", fds)
+	}
 	// ---- D6 reverse / shuffle
 	if fd := ms["ReverseValues"]; fd != nil {
 		checkReverse(c, r, info, fd)
